@@ -130,6 +130,9 @@ QUERIES = ['a', 's', 'l', 'l[*]', 'l[0]', 'l[7]', 'e', 'e[*]', 'm', 'm.k', 'm.*'
            'lm[ sub[ x == 99 ].y == 1 ].k', 'lm[ sub[ x == 1 ].y == 1 ].k', 'lm[ sub[ x == 99 ] empty ].k', 'lm[ zz == 1 or k == 5 ].k']
 LITERALS = ['1', '5', '"ab"', '"a"', '""', '1.5', 'true', 'null', '[1, 2, 3]', '[1]', '[]', '["a", "ab"]', '[[1, 2], [3]]', '{k: 1, j: "x"}',
             'r[1,3]', 'r(1,3)', '/^a/', '[5, 1]', '[1, 2]', '2']
+BLOCK_QUERIES = ['lm[*]', 'lm[*].sub[*]', 'lm[*].t', 'm', 'zz', 'l[*]', 'lm[ k exists ]', 'lm[ k == 77 ]', 'lm[*].k']
+BLOCK_BODIES = ['k exists', 'this exists', 'when k == 5 {\n      t !exists\n    }', 'when zz exists {\n      k == 1\n    }', 'k == 1 or\n    t exists',
+                'x == 1', 'when this is_string {\n      this == "x"\n    }', 'this is_int']
 UNOPS = ['exists', 'empty', 'is_string', 'is_list', 'is_struct', 'is_int', 'is_bool', 'is_float', 'is_null']
 BINOPS = ['==', '!=', 'in', 'not in', '>', '>=', '<', '<=']
 
@@ -147,9 +150,20 @@ def exhaustive(ctx, sample):
                 for op in BINOPS:
                     for lit in LITERALS:
                         clauses.append('%s%s%s %s %s' % (neg, some, q, op, lit))
-    total = len(clauses) * len(DOCS)
+    # block clauses: selections with unresolved members, bodies that PASS / FAIL / SKIP per value
+    blocks = []
+    for q in BLOCK_QUERIES:
+        for some in ('', 'some '):
+            for body in BLOCK_BODIES:
+                blocks.append('%s%s {\n    %s\n  }' % (some, q, body))
+            blocks.append('%s%s !empty {\n    this exists\n  }' % (some, q))
+    total = (len(clauses) + len(blocks)) * len(DOCS)
     if sample is not None and sample < len(clauses):
-        clauses = rng.sample(clauses, sample)
+        # the emptiness / existence tests (special-cased in the evaluator) and the block clauses always; a seeded sample of the rest
+        core = [c for c in clauses if re.search(r'(exists|empty)$', c)]
+        rest = [c for c in clauses if c not in set(core)]
+        clauses = core + rng.sample(rest, sample)
+    clauses = clauses + blocks
     pairs = []
     per_file = 25
     for di, doc in enumerate(DOCS):
